@@ -60,6 +60,11 @@ func streamEngine(t *testing.T, o *Out, p EngProfile) {
 	r := newRand()
 	n := envInt("VERIF_N", 300)
 	env := newEngEnv(t)
+	if p.OtherNet {
+		if err := env.useCtxNetworks(); err != nil {
+			t.Fatalf("ctx networks: %v", err)
+		}
+	}
 	id := 0
 	emit := func(c *EngCase, tag string, withConc bool) int64 {
 		id++
